@@ -505,7 +505,7 @@ def _compare_discovery(sim, b, services, attrs, layout, server, case):
 
 
 # --------------------------------------------------------------------------------------
-SCRIPT_KINDS = ['valid', 'valid', 'empty_list', 'repeat_handle', 'decreasing', 'descending_within', 'handle_ffff', 'wrong_type', 'error_other', 'not_found', 'short_entry', 'no_advance']
+SCRIPT_KINDS = ['valid', 'valid', 'empty_list', 'repeat_handle', 'decreasing', 'descending_within', 'handle_ffff', 'wrong_type', 'error_other', 'not_found', 'short_entry', 'no_advance', 'fixed_range']
 
 
 def gen_adversarial(rng, tier, seed):
@@ -643,6 +643,11 @@ def _scripted(op, start, end, kind, ulen, n):
         return bytes([0x01, op]) + struct.pack('<H', start) + bytes([0x0A])
     if kind == 'short_entry':
         return wrap([entry(h)])[:-1]
+    if kind == 'fixed_range':
+        # the same answer whatever was asked: a group 0x0001..0x0005 (an entry below the requested start from the second request on)
+        if op == 0x10:
+            return wrap([struct.pack('<HH', 1, 5) + u])
+        return wrap([entry(1)])
     if kind == 'no_advance':
         return wrap([entry(max(1, start - 1) if start > 1 else 1)])
     return bytes([0x01, op, 0, 0, 0x0A])
